@@ -47,9 +47,68 @@ def run(ctx):
     finish(ctx, rets, I, where)
     writers(ctx)
     execute(ctx)
+    code_end(ctx)
     ck.sample({"rule": "C11", "step_paths": len(rets),
                "example_path": [e[0] + ":" + str(e[1])[:20] for e in rets[0].path.events
                                 if e[0] in ("decode", "mnem", "dispatch", "store", "reg_write", "poll_before", "poll_after")]})
+
+
+def code_end(ctx):
+    """C11.end: the constructor sets code_end_addr := code_start_addr + code.len() (the end of the initial code),
+    and nothing else writes it."""
+    ck, facts = ctx.check, ctx.facts
+    from .. import prims as P
+    new = [k for k in facts.by_name("new") if facts.bodies[k].get("impl_self") == "axecutor::Axecutor"]
+    if len(new) != 1:
+        ck.violation("C11.end", "api=new", "anchor matches %d bodies" % len(new))
+        return
+    body = facts.bodies[new[0]]
+    where = "%s:%d (new)" % (body["span"][0], body["span"][1])
+    empty = facts.method("axecutor::Axecutor", "empty")["path"]
+
+    def icpt(I, path, frame, t, name, args):
+        if name == empty:
+            return [(("init", "fresh_axecutor", 0), path)]
+        if name in facts.bodies and facts.bodies[name].get("impl_self") == "axecutor::Axecutor" and name != body["path"]:
+            p2 = path.copy()
+            return [(A.OK(A.UNIT), path), (A.ERR(("e",)), p2)]
+        return None
+    I = A.Interp(facts, intercept=icpt)
+    outs = list(I.run(body, [("codeslice",), A.W(("code_start",), 64), A.W(("initial_rip",), 64)], A.Path()))
+    oks = [o for o in outs if o.kind == "return" and not is_err(o)]
+    bad = None
+    if not oks:
+        bad = "no success path"
+    for o in oks:
+        v = o.value[3][0]
+        end = None
+        if v[0] == "ovl":
+            for k_, val in v[2]:
+                if k_ == "code_end_addr":
+                    end = val
+        if end is None:
+            bad = bad or "code_end_addr is not set"
+            continue
+        aff = U.affine_norm(end)
+        names = sorted(str(M.strip_all(k_)) for k_ in aff[0])
+        want = sorted([str(("code_start",)), str(("len", ("codeslice",)))])
+        if names != want or any(c != 1 for c in aff[0].values()) or aff[1] != 0:
+            bad = bad or "code_end_addr := %s, expected code_start_addr + code.len()" % A.show(end)
+    if bad:
+        ck.violation("C11.end", "api=new", bad, where=where,
+                     what="execution no longer finishes exactly when RIP reaches the end of the initial code")
+    else:
+        ck.ok("C11.end", "api=new")
+    # other writers of code_end_addr
+    for k, b in facts.bodies.items():
+        if b["glue"]:
+            continue
+        for blk in b["blocks"]:
+            for st in blk["s"]:
+                if st[0] == "a":
+                    names = [(e[2], e[3]) for e in st[1][1] if isinstance(e, list) and e[0] == "f"]
+                    if names and names[-1] == ("code_end_addr", "axecutor::Axecutor") and k != body["path"]:
+                        ck.violation("C11.end", "fn=%s" % b["name"], "writes code_end_addr", where=F.site_str(b, st[3]))
 
 
 def cond_truth(c):
